@@ -142,8 +142,12 @@ def run(tier, v):
                         simulate="num=%d" % (400 if thorough else 40), depth=45, workers=8, timeout=1200)
     f_exh = pool.submit(tlc_gen, PID, "gen_exh", "Gen_Alerts", exh_cfg, jp("gen_exh.jsonl"), jp("lib_exh.json"),
                         timeout=900, files=files, workers=4)
-    f_dup = pool.submit(tlc_gen, PID, "gen_dup", "Gen_AlertsDup", "Gen_AlertsDup.cfg", jp("gen_dup.jsonl"), jp("lib_dup.json"),
-                        timeout=300, workers=4)
+    dup_cfg, dfiles = "Gen_AlertsDup.cfg", None
+    if thorough:     # ... also with the empty-valued variant of the label set on either side
+        dfiles = [derive_cfg(PID, "Gen_AlertsDup.cfg", "Gen_AlertsDup_x.cfg", Variants='= {"L1", "L1e"}')]
+        dup_cfg = "Gen_AlertsDup_x.cfg"
+    f_dup = pool.submit(tlc_gen, PID, "gen_dup", "Gen_AlertsDup", dup_cfg, jp("gen_dup.jsonl"), jp("lib_dup.json"),
+                        timeout=300, workers=4, files=dfiles)
     #    equal stamps in the design: all bodies with one label set twice (and same-instant requests)
     f_mcd = pool.submit(mc_run, PID, "mc_dup", "MC_Alerts", "MC_Alerts_dup.cfg", 300, None, None, 1, 4)
     #    ... and the clauses decide the family: the other reading of the stamp comparison is refuted
